@@ -851,9 +851,9 @@ int engine_main(int argc, char** argv, Engine& e) {
     bool all_completed = true; std::string largest_completed;
     Counters tot; memset(&tot, 0, sizeof tot);
     std::set<uint64_t> outcomes; std::vector<std::string> samples;
-    const double hang_s = (double)cfg.optl("hang_s", 30);
 
     std::vector<std::string> all_stages = e.stages();
+    const double hang_s = (double)cfg.optl("hang_s", 30);   // engines may set a tighter default in stages()
     { auto it = cfg.opt.find("only"); if (it != cfg.opt.end()) { std::vector<std::string> f; for (auto& s : all_stages) if (s.find(it->second) == 0) f.push_back(s); all_stages = f; } }
     for (auto& stage : all_stages) {
         if (deadline_hit()) { all_completed = false; StageRes r; r.name = stage; r.completed = false; sres.push_back(r); continue; }
